@@ -2,6 +2,7 @@ package main
 
 import (
 	"fmt"
+	"math/rand"
 	"go/constant"
 	"go/token"
 	"go/types"
@@ -95,12 +96,20 @@ type Interp struct {
 	model     map[string]uint64 // a model of the current pc (nil if none known)
 	modelHits int
 	altModel  map[string]uint64
+	f2iSrc    map[int]*Term
+	pcSet     map[int]bool
+	synHits   int
+	setups    map[string]Value
+	rng        *rand.Rand
+	guessHits, guessMiss int
+	setupCells map[*Cell]bool
+	setupMaps  map[*Map]bool
 }
 
 func newInterp(prog *ssa.Program, cfg *Config) *Interp {
 	in := &Interp{prog: prog, ts: newTermStore(), globals: map[*ssa.Global]*Cell{},
 		fnInfos: map[*ssa.Function]*fnInfo{}, inited: map[*ssa.Package]bool{},
-		notes: map[string]bool{}, funcsRun: map[*ssa.Function]int{}, cfg: cfg,
+		setups: map[string]Value{}, notes: map[string]bool{}, funcsRun: map[*ssa.Function]int{}, cfg: cfg,
 		builders: map[*Cell]*Value{}}
 	in.sol = newSolver(cfg.Solver, cfg.TimeoutMs)
 	in.resetPath()
@@ -128,6 +137,8 @@ func (in *Interp) resetPath() {
 	in.curFrame = nil
 	in.model = map[string]uint64{}
 	in.altModel = nil
+	in.f2iSrc = map[int]*Term{}
+	in.pcSet = map[int]bool{}
 }
 
 func isRepoPkgPath(p string) bool {
@@ -148,8 +159,13 @@ var interpFuncs = map[string]bool{
 	"(*time.Time).setMono": true,
 	"strconv.Itoa": true,
 	"math.IsNaN": true, "math.IsInf": true, "math.Inf": true, "math.NaN": true, "math.Signbit": true,
-	"math.Max": true, "math.Min": true, "math.max": true, "math.min": true,
 	"sort.Strings": false,
+}
+
+var timeIntrinsic = map[string]bool{
+	"(time.Time).String": true, "(time.Time).Format": true, "(time.Time).UnixNano": true, "(time.Time).Year": true,
+	"(time.Time).IsZero": true, "time.Now": true, "time.now": true, "time.runtimeNano": true, "time.Sleep": true,
+	"(time.Time).GoString": true, "(time.Time).AppendFormat": true, "(time.Time).Date": true,
 }
 
 func pkgOfFn(fn *ssa.Function) *types.Package {
@@ -206,6 +222,8 @@ func (in *Interp) info(fn *ssa.Function) *fnInfo {
 		// calls the real function which is dispatched again
 		fi.interpret = true
 	case interpPkgs[path], interpFuncs[fi.name]:
+		fi.interpret = true
+	case path == "time" && !timeIntrinsic[fi.name]:
 		fi.interpret = true
 	}
 	if fn.Synthetic != "" && fn.Blocks != nil && path != svPath {
@@ -651,6 +669,7 @@ func (in *Interp) addPC(t *Term) {
 		return
 	}
 	in.pc = append(in.pc, t)
+	in.pcSet[t.id] = true
 	if in.model != nil && !in.holds(t) {
 		in.model = nil
 	}
@@ -668,8 +687,32 @@ func (in *Interp) holds(t *Term) bool {
 
 // feasible decides sat(pc ∧ c), using and refreshing the cached model.
 func (in *Interp) feasible(c *Term) string {
+	// syntactic: c or its negation is already on the path condition
+	if in.pcSet[in.ts.Not(c).id] {
+		in.synHits++
+		return "unsat"
+	}
+	if in.pcSet[c.id] {
+		in.synHits++
+		if !in.holds(c) {
+			in.altModel = in.model
+		}
+		return "sat"
+	}
+	if c.op == "and" {
+		for _, a := range c.args {
+			if in.pcSet[in.ts.Not(a).id] {
+				in.synHits++
+				return "unsat"
+			}
+		}
+	}
 	if in.holds(c) {
 		in.modelHits++
+		return "sat"
+	}
+	if m := in.guessSat(c); m != nil {
+		in.altModel = m
 		return "sat"
 	}
 	r := in.check(c, true)
@@ -707,6 +750,9 @@ func (in *Interp) decide(c *Term) bool {
 func (in *Interp) choose(name string, n int) int {
 	if n <= 1 {
 		return 0
+	}
+	if k, ok := in.cfg.Fix[name]; ok && k < n {
+		return k
 	}
 	return in.branch(n, name, nil)
 }
